@@ -176,6 +176,15 @@ func (c10) Run(x *Exec, scn any) {
 			if c.kind == 5 || c.kind == 6 {
 				check(true, hooks.genCalls[k], "lazy-generator")
 			}
+			// "with the caller's context": a context is request-scoped, what it reaches may be
+			// recycled once the call has returned, so the hooks have to run on the caller's
+			// goroutine during the call, not later on a worker
+			for _, who := range hooks.byTask[k] {
+				if who != fmt.Sprintf("client%d", sb.Task) {
+					o.violate("hook-off-caller", "C10/hook-invoked-outside-the-logging-call", "%s: a context hook for this call ran on task %q, not on the calling goroutine during the call", sb.ID, who)
+					break
+				}
+			}
 			if recCount[sb.ID] != want {
 				o.violate("emit-count", fmt.Sprintf("C10/emitted-%d-times-expected-%d", recCount[sb.ID], want), "%s via %s (enabled=%v) was emitted %d times", sb.ID, ep, enabled, recCount[sb.ID])
 				continue
